@@ -22,4 +22,15 @@ spec_u32 wv_snap_h[8], wv_snap_t[8];
 #define WV_MD5_EQ(m, a, b, c, d) ((m).v[0] == (a) && (m).v[1] == (b) && (m).v[2] == (c) && (m).v[3] == (d))
 #define WV_SNAP_H(a, n) { for (int wv_k = 0; wv_k < (n); ++wv_k) wv_snap_h[wv_k] = (a)[wv_k]; }
 #define WV_SNAP_T(a, n) { for (int wv_k = 0; wv_k < (n); ++wv_k) wv_snap_t[wv_k] = (a)[wv_k]; }
+/* --- hashing buffer (filebuffer64) as an abstract stream of units: [64-byte prefix block] 64, 64, ..., 64, short (< 64) */
+unsigned long long wv_fb_left0;   /* bytes left in the stream when getFileHash started */
+#define WV_FB(p) ((filebuffer64 *)(p))
+#define WV_FILE_STATE(f) (f)->pos, (f)->eof
+/* bytes the stream will still deliver: prefix block, buffered units from `now` on, the buffered tail, the rest of the file */
+#define WV_FB_LEFT(fb) (((fb)->has_extra ? 64ull : 0ull) + ((fb)->now <= (fb)->total ? 64ull * ((fb)->total - (fb)->now) + (fb)->tail : 0ull) + ((fb)->fp->len - (fb)->fp->pos))
+#define WV_FB_DONE(fb) ((fb)->now > (fb)->total)
+/* representation invariant: a buffer that is not full means the file is exhausted */
+#define WV_FB_OK(fb) ((fb)->fp->open && (fb)->fp->pos <= (fb)->fp->len && (fb)->fp->len < (1ull << 62) && (fb)->total <= filebuffer64__HBUF_SZ && (fb)->tail < 64 && \
+  (fb)->now <= (fb)->total + 1 && (fb)->now <= filebuffer64__HBUF_SZ && ((fb)->total == filebuffer64__HBUF_SZ ==> (fb)->tail == 0) && \
+  (((fb)->total < filebuffer64__HBUF_SZ) ==> (fb)->fp->pos == (fb)->fp->len))
 #endif
